@@ -11,6 +11,7 @@ structure raises `Untranslatable` (reported by ./check as a broken obligation).
 """
 import ast
 import os
+import re
 
 
 class Untranslatable(Exception):
@@ -202,6 +203,7 @@ def generate(repo):
            "namespace QGen.C02", "open QM QM.C02", ""]
 
     def emit(doc, sig, body):
+        doc = re.sub(r"^(\S+?):\d+ ", r"\1 ", doc)   # no line numbers: an edit elsewhere in the file must not change the generated text
         out.append(f"/-- {doc} -/\ndef {sig} :=\n  {body}\n")
 
     # ---- gate.py
